@@ -220,13 +220,16 @@ def _big_stack():
             pass
 
 
+TIMEOUT = -999          # not a possible exit status (124 is: a program may exit with 124)
+
+
 def _run(cmd, cwd, input=None, timeout=120, big_stack=False):
     try:
         p = subprocess.run(cmd, cwd=cwd, input=input, stdout=subprocess.PIPE, stderr=subprocess.PIPE, timeout=timeout,
                            preexec_fn=_big_stack if big_stack else None)
         return p.returncode, p.stdout, p.stderr
     except subprocess.TimeoutExpired as ex:
-        return 124, ex.stdout or b'', ex.stderr or b''
+        return TIMEOUT, ex.stdout or b'', ex.stderr or b''
 
 
 def parse_out(s):
@@ -281,7 +284,7 @@ def compile_x(xcmp, d, name='prog.x', timeout=60):
     if os.path.exists(aout):
         os.remove(aout)
     rc, out, err = _run([xcmp, name], d, timeout=timeout)
-    if rc == 124:
+    if rc == TIMEOUT:
         return 'timeout', 'xcmp did not finish in %ds' % timeout
     if rc < 0:
         return 'crash', 'xcmp killed by signal %d %s' % (-rc, err[-200:].decode('latin-1'))
@@ -390,7 +393,7 @@ def evaluate(tools, d, prog, inputs, steps=20000, depth=300, maxisa=3000000, wan
         for k, i in enumerate(good):
             s = spec[i]
             rc, out, err = run_hexsim(tools.hexsim, binf, inputs[i])
-            if rc == 124:
+            if rc == TIMEOUT:
                 r['findings'].append(('hexsim-timeout', i, 'hexsim did not finish'))
             elif rc < 0:
                 r['findings'].append(('hexsim-crash', i, 'hexsim killed by signal %d' % -rc))
